@@ -539,6 +539,35 @@ V({
     "trusted": ["chalk-engine Tables / Table / Stack (abstract)", "chalk-solve InferenceTable::canonicalize, apply_answer_subst"],
 })
 
+# -------------------------------------------------------------------------- V21
+V({
+    "id": "V21",
+    "title": "canonicalizer_leaves: Canonicalizer::{fold_inference_ty, fold_inference_lifetime, fold_inference_const, fold_free_placeholder_ty, fold_free_placeholder_lifetime, fold_free_placeholder_const, forbid_free_vars, interner}, InferenceTable::probe_var, BoundVar::{new, shifted_in_from, to_const}, DebruijnIndex::{new, depth, shifted_in_from}, WithKind::{new, skip_kind}",
+    "template": "v21_canonicalizer_leaves.rs",
+    "assumptions": [
+        "V21: Canonicalizer::add (iterator position + closure capturing &mut self, outside Verus) is ASSUMED to return the index of the first free_vars entry for the variable, appending the entry when there is none",
+        "V21: ena's table is abstract: a union-find view (class representative, value of each class) with the assumed contracts of probe_value and find; interning is abstract (kind/data of an interned term is what was interned)",
+        "V21: the bound-unknown branch recurses through the generic fold driver (havoc; assumed to only append to free_vars and to leave the union-find classes alone)",
+        "V21: derive(Ord) on UniverseIndex is the order of `counter`; std::cmp::max returns its second argument unless the first is greater (std documentation)",
+        "V21: DebruijnIndex is re-declared with a public `depth` field (Verus rejects the pub const INNERMOST of a struct with a private field); its three methods are extracted verbatim",
+    ],
+    "trusted": ["ena", "chalk-ir fold driver", "Canonicalizer::add"],
+})
+
+# -------------------------------------------------------------------------- V22
+V({
+    "id": "V22",
+    "title": "slg_unwind: <SolveState as Drop>::drop, SolveState::unwind_stack (chalk-engine/src/logic.rs), Stack::{is_empty, top, pop_and_adjust_depth, pop_and_take_caller_strand} (chalk-engine/src/stack.rs)",
+    "template": "v22_unwind.rs",
+    "assumptions": [
+        "V22: Rust runs Drop::drop of the SolveState when a database callback panics and unwinds through the solver (language semantics; neither tool models unwinding)",
+        "V22: precondition (stack invariant of the state machine, not verified here): every stack entry below the top holds its suspended strand; a strand that the state machine holds in a local variable at the moment of the panic is not covered (the code's own FIXME in StackEntry)",
+        "V22: Tables / Table are abstract (views: table at an index, its strand queue, 'everything else'); Table::enqueue_strand appends to the queue and changes nothing else; custom Index/IndexMut impls have no precondition",
+        "V22: Verus allows no precondition on Drop::drop, so the verbatim text of <SolveState as Drop>::drop is checked as an inherent method of the same name (only the enclosing impl header differs)",
+    ],
+    "trusted": ["chalk-engine Tables / Table (abstract)", "Rust unwinding semantics"],
+})
+
 # ===========================================================================
 GLOBAL_ASSUMPTIONS = [
     "soundness of rustc+Kani's model of core/alloc and of CBMC; soundness of Verus and Z3",
